@@ -366,7 +366,7 @@ so is everything from the current position, all graphemes consumed here being on
 theorem scanLoop_good (lb : Nat → Nat → Bool) (width : Nat) :
     ∀ (fuel : Nat) (rest : List Cell) (token : List Cell) (w : Nat) (rest' : List Cell) (st' : Unit)
       (tok : List Cell), rest ≠ [] →
-    scanLoop (richOracle lb) width fuel rest () token w = .line rest' st' tok →
+    scanLoop (richOracle lb) () width fuel rest () token w = .line rest' st' tok →
     ∃ p, rest = p ++ rest' ∧
       ∀ (J : List Nat) (k0 : Nat), Good lb width rest' J →
         Good lb width rest (List.replicate (content p).length k0 ++ J) := by
@@ -493,7 +493,7 @@ theorem scanLoop_good (lb : Nat → Nat → Bool) (width : Nat) :
 /-- The whole iteration of the richtext scanner is good. -/
 theorem scanAll_good (lb : Nat → Nat → Bool) (width : Nat) (hw : 0 < width) :
     ∀ (fuel : Nat) (rest : List Cell) (ls : List (List Cell)),
-    scanAll (richOracle lb) width fuel rest () = .ok ls →
+    scanAll (richOracle lb) () width fuel rest () = .ok ls →
     ∀ k, Good lb width rest (lineIdxFrom k ls) := by
   intro fuel
   induction fuel with
@@ -504,7 +504,7 @@ theorem scanAll_good (lb : Nat → Nat → Bool) (width : Nat) (hw : 0 < width) 
     split at h
     · rename_i hs
       cases h
-      rcases scan_cases (richOracle lb) width (richOracle_ok lb) rest () with ⟨_, hz⟩ | ⟨_, r, s, t, h1, _, _⟩
+      rcases scan_cases (richOracle lb) () width (richOracle_ok lb) rest () with ⟨_, hz⟩ | ⟨_, r, s, t, h1, _, _⟩
       · rcases hz with hz | hz
         · subst hz; exact Good.nil _
         · omega
@@ -521,7 +521,7 @@ theorem scanAll_good (lb : Nat → Nat → Bool) (width : Nat) (hw : 0 < width) 
           have hne : rest ≠ [] := by
             intro h0; subst h0; simp at hguard
           obtain ⟨p, hp, hgood⟩ := scanLoop_good lb width _ rest [] 0 rest' st' tok hne hs
-          have hc := scanLoop_conserves (richOracle lb) width _ _ _ _ _ _ _ _ hs
+          have hc := scanLoop_conserves (richOracle lb) () width _ _ _ _ _ _ _ _ hs
           have hcp : content tok = content p := by
             rw [hp, content_append] at hc
             simpa [content] using List.append_cancel_right hc
